@@ -283,7 +283,7 @@ def run(tier: str) -> int:
               "search: every flow column requested in all four units on random valid populations, ratios vs the "
               "documented factors (1e-9 relative), group-level variants included")
     emit_lean.regenerate()
-    common.build_and_audit(r, ["C13", "C13Sim", "C13Inst"], leanchecker=not quick)
+    common.build_and_audit(r, ["C13", "C13Sim", "SimSpecs", "C13Inst"], leanchecker=not quick)
     rnd = common.rng("C13")
     parser_correspondence(r, rnd, 300 if quick else 5000)
     converter_correspondence(r)
